@@ -36,8 +36,13 @@ func init() {
 		var firstFail string
 		lateAlive := 0
 		progress, _ := os.Create("stress-progress.txt")
+		// a small pool of reserved addresses, re-used round robin (every iteration re-binds addresses a stopped instance has just released)
+		pool := make([]string, 16)
+		for i := range pool {
+			pool[i] = freeAddr()
+		}
 		for it := 0; it < cs.Iterations; it++ {
-			cfg := server.Config{ProverAddress: freeAddr(), MetricsAddress: freeAddr(), Mode: "deletion"}
+			cfg := server.Config{ProverAddress: pool[(2*it)%len(pool)], MetricsAddress: pool[(2*it+1)%len(pool)], Mode: "deletion"}
 			for cyc := 0; cyc < max(cs.Cycles, 1); cyc++ {
 				g := newGatekeeper()
 				if cs.Mode == "aligned" {
